@@ -1,7 +1,7 @@
 (* Property C08 -- non-linear and total least-squares fits obey the implicit-function rule.  Theorems only. *)
 From Coq Require Import ZArith QArith Reals List Bool.
 From Interval Require Import Interval.Interval Real.Xreal Real.Xreal_derive.
-From PV Require Import Base.QAux Base.RI Base.Expr Base.ExprFold Base.Dyadic Base.DyadicR Lin.Mat Fit.Implicit Fit.ImplicitSound.
+From PV Require Import Base.QAux Base.RI Base.Expr Base.ExprFold Base.Dyadic Base.DyadicR Lin.Mat Fit.Implicit Fit.ImplicitSound Fit.ElimSound.
 Import ListNotations.
 
 (* the symbolic partial derivative used for gradient, Hessian and mixed derivatives of chi^2 IS the real derivative:
@@ -53,6 +53,22 @@ Theorem differentiated_equation_decision_is_sound :
   (Rabs (rsum crs xrs) <= dR rt * (rasum crs xrs + dR scale))%R.
 Proof. exact form_decision_sound. Qed.
 
+(* the interval Gaussian elimination of the fitted abscissae (total least squares): every row of the result either is unbounded
+   (and then rejected, since unbounded entries have no dyadic bounds) or encloses a real row that still annihilates the true solution
+   vector and has exact zeros in all eliminated columns -- for any number of rows, columns and eliminated unknowns *)
+Theorem interval_elimination_is_sound :
+  forall (rows : list irow) (RR : list (list R)) (z : list R) (n : nat) (hidden : list nat) (k : nat),
+  Forall2 (fun ir rr => Forall2 encl_entry ir rr) rows RR ->
+  Forall (fun rr => length rr = n /\ rdot rr z = 0%R) RR ->
+  NoDup hidden -> (k < length rows)%nat -> ~ In k hidden ->
+  let ir := nth k (eliminate hidden rows) [] in
+  Forall unbounded ir \/
+  exists rr, Forall2 encl_entry ir rr /\ rdot rr z = 0%R /\ forall h, In h hidden -> nth h rr 0%R = 0%R.
+Proof. exact eliminate_sound. Qed.
+
+Theorem unbounded_entries_have_no_bounds : forall i a b, i2d i = Some (a, b) -> ~ unbounded i.
+Proof. exact unbounded_no_bounds. Qed.
+
 (* Non-vacuity: chi^2 of y = p0 exp(-p1 x) on two points, its symbolic gradient is not trivial and evaluates to a finite interval *)
 Example c08_example :
   let fe := EMul (EV 0) (EExp (ENeg (EMul (EV 1) (EV 2)))) in
@@ -66,3 +82,4 @@ Print Assumptions implicit_function_rule.
 Print Assumptions certified_folded_derivative.
 Print Assumptions interval_bounds_as_dyadics.
 Print Assumptions differentiated_equation_decision_is_sound.
+Print Assumptions interval_elimination_is_sound.
